@@ -54,8 +54,10 @@ def origin(fn, op, depth=0, seen=None, maxdepth=40):
 def upvar_name(fn, idx):
     for u in fn.mir.get("upvars", []):
         p = u["place"]
-        if p["l"] == 1 and p.get("p") and p["p"][0] == ".%d" % idx:
-            return u["name"]
+        if p["l"] == 1 and p.get("p"):
+            flds = [e for e in p["p"] if e.startswith(".")]
+            if flds and flds[0] == ".%d" % idx:
+                return u["name"]
     return None
 
 
@@ -470,3 +472,32 @@ def mentions(t, needle):
     if k == "built":
         return bool(t[2]) and needle in t[2]
     return False
+
+
+def closures_in_term(t, out=None):
+    """ids of closure bodies constructed inside a term"""
+    if out is None:
+        out = []
+    k = t[0]
+    if k == "agg":
+        if t[1].startswith("closure:"):
+            out.append(t[1][len("closure:"):])
+        for a in t[2]:
+            closures_in_term(a, out)
+    elif k == "call":
+        for a in t[2]:
+            closures_in_term(a, out)
+    elif k == "callind":
+        for a in t[2]:
+            closures_in_term(a, out)
+    elif k in ("cast", "ref", "deref", "discr", "repeat", "field"):
+        closures_in_term(t[1], out)
+    elif k == "bin":
+        closures_in_term(t[2], out)
+        closures_in_term(t[3], out)
+    elif k == "un":
+        closures_in_term(t[2], out)
+    elif k == "phi":
+        for a in t[1]:
+            closures_in_term(a, out)
+    return out
